@@ -1,6 +1,7 @@
 (* C06 — object files round-trip and the loader rejects what it cannot load. *)
 From Coq Require Import Arith.
 From Lace Require Import Word Machine Isa Vm Asm Cli CliProofs.
+From Lace Require Examples.
 Open Scope N_scope.
 
 (** `compile` writes exactly 2(n+1) bytes: the origin (x3000 by default), then the n words,
@@ -47,3 +48,12 @@ Theorem C06_loader_rejects : forall bytes inp, exists r, load_file bytes inp = r
   (match r with Loaded _ => True | LoadExit c => c = 1 \/ c = 238 end).
 Proof. exact load_file_never_panics. Qed.
 Print Assumptions C06_loader_rejects.
+
+(** Non-vacuity: a source that assembles (6 words, origin in range: the hypotheses of C06_roundtrip
+    and C06_roundtrip_src). *)
+Example C06_nonvacuous :
+  match assemble false nil Examples.ex_src_ok with
+  | (Ok im, _) => image_orig im < W /\ length (i_words im) = 6%nat /\ check_exit false Examples.ex_src_ok = 0
+  | _ => False
+  end.
+Proof. exact Examples.ex_assembles. Qed.
